@@ -31,6 +31,9 @@ type c05Verdict struct {
 	LateItems     int // items that began after their module's stop began (P1b demanded a cancelled context)
 	Events        int
 	PlanRealised  bool
+	// invocations of restarting service workers' functions between the begin of their
+	// module's stop and the module's next start (each was compared with the completions)
+	LoopInvocationsWhileStopping int
 }
 
 type oItem struct {
@@ -108,6 +111,7 @@ func c05Oracle(sp *c05Spec, out *c05Out) *c05Verdict {
 		seq uint64
 	}
 	var p4marks []p4mark
+	loopFirst := map[string]uint64{} // restarting service worker -> first invocation of its function
 	cur := func(m string) *oStop {
 		l := stops[m]
 		if len(l) == 0 {
@@ -193,6 +197,8 @@ func c05Oracle(sp *c05Spec, out *c05Out) *c05Verdict {
 					it.end, it.endT, it.endStatus, it.endPre = e.Seq, e.T, fInt(e.F, "status"), uint64(fInt(e.F, "pre"))
 				}
 			}
+		case "loopfirst":
+			loopFirst[e.Who] = e.Seq
 		case "ctx":
 			if it := items[e.Who]; it != nil {
 				it.ctxSeen, it.ctxDone, it.ctxSeq = true, fBool(e.F, "done"), e.Seq
@@ -367,6 +373,40 @@ func c05Oracle(sp *c05Spec, out *c05Out) *c05Verdict {
 			for _, it := range before {
 				if it.endPre >= ref && it.end < nextStart && it.endStatus == statusOffline {
 					add("C05:P2:reported-offline-before-work-end:"+kindClass(it.kind), fmt.Sprintf("%s %s of %s saw Status()==offline while it was still running", kindClass(it.kind), it.who, m), witness(s, it, nil))
+					break
+				}
+			}
+
+			// ---- P2 for restarting service workers: a service worker whose function had
+			// been invoked before the stop is one piece of running work until portbase ends
+			// its restart loop; an invocation of its function (necessarily with a cancelled
+			// context) is legitimate while the module is stopping, but not after the module
+			// was reported offline, a dependency began to stop or the pass returned
+			for _, it := range order {
+				if it.mod != m || it.kind != "svc_loop" || it.begin < s.ctrlset || it.begin > nextStart {
+					continue
+				}
+				base := it.who
+				if i := strings.Index(base, "#"); i > 0 {
+					base = base[:i]
+				}
+				if f, ok := loopFirst[base]; !ok || f > ref {
+					continue
+				}
+				v.LoopInvocationsWhileStopping++
+				hit := ""
+				for _, c := range completions {
+					if c.seq < it.begin {
+						hit = c.what
+						break
+					}
+				}
+				if hit == "" && it.endStatus == statusOffline && it.endPre >= it.begin && it.end < nextStart {
+					hit = "reported-offline"
+				}
+				if hit != "" {
+					add("C05:P2:service-worker-reinvoked-after:"+hit, fmt.Sprintf("%s: the function of service worker %s, which had been running (restarting) since before the stop, was invoked again (%s) after %s", m, base, it.who, hit),
+						witness(s, it, map[string]any{"first_invocation_seq": loopFirst[base]}))
 					break
 				}
 			}
